@@ -223,6 +223,13 @@ class C10(Check):
             labels.add("strict-missing-nullable")
         kw = {"strict": strict, "disable_tuple_notation": not tn}
         ctx = f"datum={datum!r:.200} schema={js!r:.300} strict={strict} tuple_notation={tn}"
+        if not strict and tn and not case.get("logical"):
+            # the documented defaults (raise_errors=True, strict=False, tuple notation on) used implicitly
+            o = bincase_outcome(validate, datum, schema)
+            if want and (o[0] != "ok" or o[1] is not True):
+                raise Violation("validate-defaults-reject-conforming", f"validate(datum, schema) with default options: {o!r:.200}; {ctx if False else ''}datum={datum!r:.150} schema={js!r:.200}")
+            if not want and (o[0] == "ok" or not isinstance(o[1], ValidationError)):
+                raise Violation("validate-defaults-accept-nonconforming", f"validate(datum, schema) with default options: {o!r:.200}; datum={datum!r:.150} schema={js!r:.200}")
         got = guard("validate", validate, datum, schema, raise_errors=False, **kw)
         if got is not want:
             raise Violation(f"validate-returns-{got}-expected-{want}" + (":" + case["mutation"] if case.get("mutation") else ""), ctx)
